@@ -41,13 +41,16 @@ def _add_own_extension(obj, kwargs, version):
             kwargs['extensions'] = extensions
 
 
-def _custom_object_builder(cls, type, properties, version, base_class):
+def _custom_object_builder(cls, type, properties, version, base_class, extension_name=None):
     prop_dict = _get_properties_dict(properties)
 
     class _CustomObject(cls, base_class):
 
         _type = type
         _properties = prop_dict
+        # (on the generated class, not on the caller's: that one may be
+        # decorated again, for another type with another extension)
+        with_extension = extension_name
 
         def __init__(self, **kwargs):
             _add_own_extension(self, kwargs, version)
@@ -78,7 +81,7 @@ def _custom_marking_builder(cls, type, properties, version, base_class):
     return _CustomMarking
 
 
-def _custom_observable_builder(cls, type, properties, version, base_class, id_contrib_props=None):
+def _custom_observable_builder(cls, type, properties, version, base_class, id_contrib_props=None, extension_name=None):
     if id_contrib_props is None:
         id_contrib_props = []
 
@@ -88,6 +91,7 @@ def _custom_observable_builder(cls, type, properties, version, base_class, id_co
 
         _type = type
         _properties = prop_dict
+        with_extension = extension_name
         if version != '2.0':
             _id_contributing_properties = id_contrib_props
 
